@@ -88,6 +88,8 @@ def check_binary(ka, kb, br, op_name, variant="compat"):
     def thunk():
         c = sym.ctx()
         a, b = _build2(ka, kb, br, True)
+        spec.install_repr_invariants(a)
+        spec.install_repr_invariants(b)
         Da, Db = spec.D(a), spec.D(b)
         if op_name in "+-":
             same = sym.lift(z3.And(sym.as_z3_int(Da.shape[-1]) == sym.as_z3_int(Db.shape[-1]), sym.as_z3_int(Da.shape[-2]) == sym.as_z3_int(Db.shape[-2])))
@@ -117,6 +119,7 @@ def check_binary(ka, kb, br, op_name, variant="compat"):
             return "raise"
         gd = spec.D(got) if isinstance(got, LinearOperator) else got
         spec.same_tensor_goals(c, base, gd, exp, dtype=False)
+        spec.repr_invariant_goals(c, base, got)
         return "return"
 
     paths = sym.explore(thunk, max_paths=256, timeout_ms=30000)
@@ -189,6 +192,7 @@ def check_unary(kind, br, what):
     def thunk():
         c = sym.ctx()
         a = sh_C03.build(kind, br)
+        spec.install_repr_invariants(a)
         Da = spec.D(a)
         sq = bool(Da.shape[-1] == Da.shape[-2]) if what.startswith("add_diag") or what == "add_jitter" else True
         F = Da.dtype
@@ -280,6 +284,7 @@ def check_unary(kind, br, what):
             return "raise"
         gd = spec.D(got) if isinstance(got, LinearOperator) else got
         spec.same_tensor_goals(c, base, gd, exp, dtype=False)
+        spec.repr_invariant_goals(c, base, got)
         c.prove(f"{base}/dtype", z3.BoolVal(gd.dtype is Da.dtype or what in ("mul_tensor0d", "mul_batchconst", "add_diagonal_full", "add_diagonal_const", "add_diagonal_0d") and gd.dtype.kind == "f"), info=f"{gd.dtype} vs {Da.dtype}")
         return "return"
 
